@@ -10,7 +10,12 @@ use crate::{
     logging,
 };
 use std::cmp::min;
+#[cfg(not(flea1lt_sentinel_rust_verif))]
 use std::sync::{atomic::Ordering, Arc, Mutex, Weak};
+#[cfg(flea1lt_sentinel_rust_verif)]
+use std::sync::{atomic::Ordering, Arc, Weak};
+#[cfg(flea1lt_sentinel_rust_verif)]
+use crate::verif::sync::{Mutex};
 
 /// Traffic Shaping `Checker` performs checking according to current metrics and the traffic
 /// shaping strategy, then yield the token result.
